@@ -87,13 +87,14 @@ pub fn lock_apply(st: &mut LSt, op: &Op) -> Outcome {
     flatten(&op.cmd, &mut parts);
     let single = parts.len() == 1;
     for part in parts {
+        let mut handed: Option<Vec<crate::obs::RowObs>> = None;
         match part {
             Resize(c, r) => {
                 let _ = st.vt.resize(c, r).scrollback.count();
             }
             ref p => {
                 let text = if single { op.text.clone() } else { p.spell(SP7) };
-                let _ = st.vt.feed_str(&text).scrollback.count();
+                handed = Some(st.vt.feed_str(&text).scrollback.map(|l| crate::obs::row_obs(&l)).collect());
             }
         }
         let o = obs_full(&st.vt);
@@ -101,6 +102,22 @@ pub fn lock_apply(st: &mut LSt, op: &Op) -> Outcome {
             StepRes::Ok => {
                 if let Err(w) = st.model.compare_hidden(&st.vt.verif_state()) {
                     return Outcome::Mismatch(part, format!("hidden state: {}", w));
+                }
+                // a terminal configured to keep no scrollback: the rows this call scrolled off
+                // the primary screen are handed to the caller, unchanged and in order
+                if let (true, Some(h)) = (st.model.no_scrollback, handed.as_ref()) {
+                    let want = &st.model.handed_out;
+                    let same = h.len() == want.len() && h.iter().zip(want.iter()).all(|(a, b)| a.cells == b.cells);
+                    if !same {
+                        return Outcome::Mismatch(
+                            part,
+                            format!(
+                                "scrollback has lost rows: the call handed out {:?}, expected {:?}",
+                                h.iter().map(|r| r.cells.iter().map(|c| c.0).collect::<String>()).collect::<Vec<_>>(),
+                                want.iter().map(|r| r.cells.iter().map(|c| c.0).collect::<String>()).collect::<Vec<_>>()
+                            ),
+                        );
+                    }
                 }
             }
             StepRes::Unspecified(w) => return Outcome::Unspecified(w),
@@ -283,6 +300,9 @@ impl System for LockStep {
             )
         );
         fp_combine(fingerprint(&st.vt), fp_str(&hidden))
+    }
+    fn has_state_hook(&self) -> bool {
+        self.probes
     }
     fn on_state(&self, cfg: &Cfg, hist: &[&Op], st: &mut LSt, rebuild: &dyn Fn() -> LSt, out: &mut Out) {
         if !self.probes || st.dead {
